@@ -266,6 +266,33 @@ func raceSignatures(report string) []string {
 	return sigs
 }
 
+// crashExcerpt returns the head of the panic / fatal error report in a child's
+// output (that is where the reason and the failing goroutine are) plus its tail.
+func crashExcerpt(path string) string {
+	b, err := os.ReadFile(path)
+	if err != nil {
+		return ""
+	}
+	s := string(b)
+	for _, key := range []string{"\npanic: ", "\nfatal error: ", "SIGQUIT"} {
+		if i := strings.Index(s, key); i >= 0 {
+			end := i + 6000
+			if end > len(s) {
+				end = len(s)
+			}
+			tail := ""
+			if len(s)-end > 3000 {
+				tail = "\n[...]\n" + s[len(s)-3000:]
+			}
+			return s[i:end] + tail
+		}
+	}
+	if len(s) > 12000 {
+		s = s[len(s)-12000:]
+	}
+	return s
+}
+
 func tailOf(path string, n int) string {
 	b, err := os.ReadFile(path)
 	if err != nil {
@@ -396,13 +423,13 @@ func runChunk(self string, raceBin string, id, tier string, seed int64, work str
 		if timedOut {
 			r := caseResult{Mode: job.mode.name, Case: open, Verdict: vInconclusive,
 				Detail:  fmt.Sprintf("child watchdog (%v) fired; open case %d", job.mode.timeout, open),
-				LogTail: tailOf(logPath, 20000)}
+				LogTail: crashExcerpt(logPath)}
 			agg.inconclusive = append(agg.inconclusive, r)
 		} else {
 			agg.crashes++
 			r := caseResult{Mode: job.mode.name, Case: open, Verdict: vViolated,
 				Detail:  fmt.Sprintf("child process died (%v) while running case %d: the process hosting the actors did not survive", err, open),
-				LogTail: tailOf(logPath, 20000)}
+				LogTail: crashExcerpt(logPath)}
 			agg.violations = append(agg.violations, r)
 		}
 	}
